@@ -29,16 +29,23 @@ COMPRESSION = 0.30                          # sampled range V_max ... 0.70 V_max
 RATIO = 1.2                                 # the calculator's default volume_ratio
 N_GRID = 2001
 ACOUSTIC_INPUT = (0.0, -0.013, 0.021)       # what matdyn prints for the three Gamma acoustic modes
+ACOUSTIC_VARIANTS = {
+    "mixed": ACOUSTIC_INPUT,                # zero, tiny negative, tiny positive
+    "positive": (1.0e-5, 0.004, 0.021),     # tiny positive residuals: log() works, so a missing skip stays finite
+    "zero": (0.0, 0.0, 0.0),
+}
+ANG3_PER_BOHR3 = 0.529177210903 ** 3        # 0.148184711...: the same cell expressed in cubic angstrom
 
 
 # --------------------------------------------------------------------------- volumes
 
-def volumes(nv: int):
-    """nv sampled volumes in DECREASING order (as in the shipped inputs), mildly non-uniform."""
+def volumes(nv: int, vscale: float = 1.0):
+    """nv sampled volumes in DECREASING order (as in the shipped inputs), mildly non-uniform.
+    vscale re-expresses the same cells in another unit (the triple is covariant: x = ln(V/V0))."""
     out = []
     for i in range(nv):
         t = i / (nv - 1)
-        out.append(V_MAX * (1.0 - COMPRESSION * t ** 1.15))
+        out.append(vscale * V_MAX * (1.0 - COMPRESSION * t ** 1.15))
     return out
 
 
@@ -120,21 +127,46 @@ def omega_at(law, v, v0):
     return math.exp(f)
 
 
-def laws_for(kind, degree, nq, npm):
-    """laws[q][m]; the three Gamma acoustic slots are None."""
-    return [[None if (q == 0 and m < 3) else make_law(kind, degree, q * npm + m) for m in range(npm)]
-            for q in range(nq)]
+def laws_for(kind, degree, nq, npm, wscale=1.0, offset=0):
+    """laws[q][m]; the three Gamma acoustic slots are None.  wscale multiplies every frequency
+    (gamma and V dgamma/dV do not change); offset shifts the slot index -> a different law set of the
+    same shape (offset = 1 moves every law one slot along, a multiple of 5 keeps the softening pattern)."""
+    out = []
+    for q in range(nq):
+        row = []
+        for m in range(npm):
+            if q == 0 and m < 3:
+                row.append(None)
+                continue
+            law = make_law(kind, degree, q * npm + m + offset)
+            law["w0"] = law["w0"] * wscale
+            row.append(law)
+        out.append(row)
+    return out
+
+
+def crossings(laws, vols, v0):
+    """Pairs of modes of ONE q-point whose frequency order differs between two sampled volumes."""
+    n = 0
+    for row in laws:
+        ms = [l for l in row if l is not None]
+        for i in range(len(ms)):
+            for j in range(i + 1, len(ms)):
+                signs = {omega_at(ms[i], v, v0) > omega_at(ms[j], v, v0) for v in vols}
+                n += len(signs) == 2
+    return n
 
 
 # --------------------------------------------------------------------------- input model (plain objects)
 
-def build_input(nv, nq, npm, kind, degree=0):
+def build_input(nv, nq, npm, kind, degree=0, wscale=1.0, vscale=1.0, acoustic="mixed", offset=0):
     """Plain objects with the attribute names the implementation reads:
     nv, nq, np, (nm, na, weights,) volumes[i].volume, volumes[i].q_points[j].modes[k]
     (plus pressure/energy/coord so that the real NamedTuples can be filled from it)."""
-    vols = volumes(nv)
+    vols = volumes(nv, vscale)
     v0 = v_ref(vols)
-    laws = laws_for(kind, degree, nq, npm)
+    laws = laws_for(kind, degree, nq, npm, wscale, offset)
+    ACOUSTIC_INPUT = ACOUSTIC_VARIANTS[acoustic]
     vdata = []
     for i, v in enumerate(vols):
         qps = []
@@ -269,6 +301,22 @@ def selftest() -> bool:
                 for j in range(i + 1, len(laws)):
                     if law_distance(laws[i], laws[j], vi, v0) < 0.15:
                         ok = False
+    # 4b. scale covariance of the reference itself, and crossing branches are present
+    for kind, d in kinds:
+        la = make_law(kind, d, 7)
+        lb = dict(la, w0=la["w0"] * 1e3)
+        va = v_grid("extended", volumes(8))
+        vb = v_grid("extended", volumes(8, ANG3_PER_BOHR3))
+        wa, ga, ha = triple(la, va, v_ref(volumes(8)))
+        wb, gb, hb = triple(lb, vb, v_ref(volumes(8, ANG3_PER_BOHR3)))
+        if numpy.abs(wb / wa / 1e3 - 1).max() > 1e-12 or numpy.abs(gb - ga).max() > 1e-11 or numpy.abs(hb - ha).max() > 1e-10:
+            ok = False
+    for nq, npm in ((3, 3), (2, 6), (1, 6)):
+        for kind, d in kinds:
+            if crossings(laws_for(kind, d, nq, npm), vols, v0) < 1:
+                ok = False
+    if crossings(laws_for("power", 0, 2, 3), vols, v0) < 1:
+        ok = False
     # 5. grids
     for nv in (6, 8, 12):
         vs = volumes(nv)
